@@ -307,7 +307,7 @@ func eqT(x, y *Term) *Term {
 	if x.S == SFP {
 		return mk(OFpEq, 0, x, y)
 	}
-	if x == y {
+	if x == y || structEq(x, y, 8) {
 		return tTrue
 	}
 	if x.S == SBool {
@@ -325,6 +325,25 @@ func eqT(x, y *Term) *Term {
 		}
 	}
 	return mk(OEq, 0, x, y)
+}
+
+// structEq: the two terms are the same expression (bounded depth); sound for Bool / BV equality.
+func structEq(x, y *Term, depth int) bool {
+	if x == y {
+		return true
+	}
+	if depth == 0 || x.Op != y.Op || x.S != y.S || x.W != y.W || x.C != y.C || x.Name != y.Name || len(x.A) != len(y.A) || x.FD != nil || y.FD != nil {
+		return false
+	}
+	if x.Op == OVar || x.Op == OConst {
+		return x.Op == OConst // distinct variable objects with the same name do not occur, but do not rely on it
+	}
+	for i := range x.A {
+		if !structEq(x.A[i], y.A[i], depth-1) {
+			return false
+		}
+	}
+	return true
 }
 
 // ---------------- finite-domain values ----------------
